@@ -25,7 +25,19 @@ Edge  == {0, 1, -1, 2, -2, 3, -3, 32768, One, -One, 2 * One, 46341, 1000, IMin, 
 Bit   == {0, 1}
 Sgn   == {1, -1}
 
-Kinds == {"pt_cls", "pt_wpow", "pt_straddle", "p3_cls", "mul_cls", "mul_halves", "xform", "bounds_edge", "invert"}
+Kinds == {"pt_cls", "pt_wpow", "pt_straddle", "p3_cls", "mul_cls", "mul_halves", "xform", "bounds_edge", "invert",
+          "near_class"}
+
+(* near_class: the library classifies matrices with comparisons that tolerate EPSILON = 2 raw units          *)
+(* (is_identity, is_scale, is_int_translate; IS_ZERO / IS_ONE / IS_UNIT / IS_INT).  A member of a class is    *)
+(* moved by -3..3 units on one entry and combined with small and large translations; the result goes to     *)
+(* invert or to one of the predicates.                                                                        *)
+TV == {0, One, -3 * One, 1000 * One, -5000 * One, 30000 * One, -32767 * One, 32767 * One}
+ClassBase(c, tx, ty) ==
+    CASE c = "translate" -> <<One, 0, tx, 0, One, ty, 0, 0, One>>
+      [] c = "scale"     -> <<2 * One, 0, tx, 0, 32768, ty, 0, 0, One>>
+      [] c = "unit"      -> <<0, -One, tx, One, 0, ty, 0, 0, One>>
+      [] c = "identity"  -> <<3 * One, 0, 0, 0, 3 * One, 0, 0, 0, 3 * One>>
 
 Rep(n, S) == [i \in 1..n |-> S]
 Dom(k) ==
@@ -40,6 +52,8 @@ Dom(k) ==
                                 {One, 2 * One, 32768, 3 * One}, {0, 1, -1, One}>>
       [] k = "invert"      -> <<{One, 2 * One, 32768, -One, 3 * One, 1000, -7, 2}, {One, 2 * One, 32768, -One, 5, 46341},
                                 Cls, Cls, {0, 1, 32768, -One}>>
+      [] k = "near_class"  -> <<{"translate", "scale", "unit", "identity"}, 1..9, -3..3, TV, TV,
+                                {"invert", "identity", "scale", "int_translate"}>>
 
 Id9 == <<One, 0, 0, 0, One, 0, 0, 0, One>>
 Lim(s) == IF s = 1 THEN IMax ELSE IMin
@@ -67,6 +81,11 @@ Build(k, p) ==
             IN [fn |-> "bounds", a |-> <<p[4], p[5], tx, 0, One, 0, 0, 0, One, 0, 0, p[1], p[1]>>]
       [] k = "invert" ->
             [fn |-> "invert", a |-> <<p[1], p[5], p[3], 0, p[2], p[4], 0, 0, One, 0>>]
+      [] k = "near_class" ->
+            LET b == ClassBase(p[1], p[4], p[5])
+                m == [b EXCEPT ![p[2]] = b[p[2]] + p[3]]
+            IN IF p[6] = "invert" THEN [fn |-> "invert", a |-> m \o <<0>>]
+               ELSE [fn |-> "is", a |-> <<p[6]>> \o m]
 
 GenInit == hist = <<>> /\ kind = "" /\ ps = <<>>
 
